@@ -235,3 +235,60 @@ void h_Group_read(void)
   Group__read(self, file, n);
   VF_CANARY();
 }
+
+/* ---------------------------------------------------------------- Parameters::Parameters(c3d&): the record walker, weak
+ * precondition (C16 C13).  The two record readers are abstracted (any outcome a reader can have); what is proved
+ * here is the walker itself: group-table growth and indexing for every id byte, no out-of-range access, standard
+ * exceptions only.  Termination of the outer loop is NOT proved (see DESIGN.md, C16). */
+#undef ST
+#define ST (&file->vf_base)
+int contract_any_Group__read(struct Group *self, struct c3d *file, int nbCharInName)
+__CPROVER_requires(vf_exc == 0 && __CPROVER_rw_ok(self, sizeof(*self)) && __CPROVER_rw_ok(file, sizeof(*file)) && VF_ISTREAM_OK(ST) &&
+                   nbCharInName >= -128 && nbCharInName <= 127)
+__CPROVER_assigns(vf_exc, ST->pos, ST->eof, ST->fail, ST->work)
+__CPROVER_ensures((vf_exc == 0 || vf_exc == VF_EXC_ios_failure) && ST->pos <= 0x10000000000L);
+
+int contract_any_Group__parameter__c3d_int(struct Group *self, struct c3d *file, int nbCharInName)
+__CPROVER_requires(vf_exc == 0 && __CPROVER_rw_ok(self, sizeof(*self)) && __CPROVER_rw_ok(file, sizeof(*file)) && VF_ISTREAM_OK(ST) &&
+                   nbCharInName >= -128 && nbCharInName <= 127)
+__CPROVER_assigns(vf_exc, ST->pos, ST->eof, ST->fail, ST->work)
+__CPROVER_ensures((vf_exc == 0 || vf_exc == VF_EXC_ios_failure || vf_exc == VF_EXC_runtime_error || vf_exc == VF_EXC_out_of_range) &&
+                  ST->pos <= 0x10000000000L);
+
+void contract_any_Group__ctor(struct Group *self, const vf_string *name, const vf_string *description)
+__CPROVER_requires(vf_exc == 0 && __CPROVER_rw_ok(self, sizeof(*self)))
+__CPROVER_assigns(*self)
+__CPROVER_ensures(vf_exc == 0);
+
+void contract_grow_vf_vec_Group_push_back(vf_vec_Group *v, const struct Group *x)
+__CPROVER_requires(v->size < 128 && __CPROVER_rw_ok(v, sizeof(*v)) && __CPROVER_r_ok(x, sizeof(*x)))
+__CPROVER_assigns(v->data, v->size)
+__CPROVER_frees(v->data)
+__CPROVER_ensures(v->size == __CPROVER_old(v->size) + 1 && __CPROVER_is_fresh(v->data, v->size * sizeof(struct Group)));
+
+struct Group *contract_acc_Parameters__group_nonConst__sz(struct Parameters *self, size_t idx)
+__CPROVER_requires(vf_exc == 0 && __CPROVER_r_ok(self, sizeof(*self)) && self->_groups.size <= 128 &&
+                   __CPROVER_r_ok(self->_groups.data, (self->_groups.size ? self->_groups.size : 1) * sizeof(struct Group)))
+__CPROVER_assigns(vf_exc)
+__CPROVER_ensures(idx < self->_groups.size ==> (vf_exc == 0 && __CPROVER_pointer_equals(__CPROVER_return_value, &self->_groups.data[idx])))
+__CPROVER_ensures(idx >= self->_groups.size ==> vf_exc == VF_EXC_out_of_range);
+
+void contract_Parameters__ctor__c3d(struct Parameters *self, struct c3d *file)
+__CPROVER_requires(vf_exc == 0 && __CPROVER_rw_ok(self, sizeof(*self)) && __CPROVER_rw_ok(file, sizeof(*file)) && VF_ISTREAM_OK(ST) &&
+                   __CPROVER_r_ok(file->_header, sizeof(struct Header)) && (void *)self != (void *)file)
+__CPROVER_assigns(*self, vf_exc, ST->pos, ST->eof, ST->fail, ST->work VF_GHOST_ALLOC)
+/*@ C16 C13 : Parameters_read.standard-outcome */
+__CPROVER_ensures(vf_exc == 0 || vf_exc == VF_EXC_ios_failure || vf_exc == VF_EXC_runtime_error || vf_exc == VF_EXC_out_of_range)
+/*@ C16 C13 : Parameters_read.group-table-bounded */
+__CPROVER_ensures(vf_exc == 0 ==> self->_groups.size <= 128)
+/*@ C02 C16 : Parameters_read.magic-byte-enforced */
+__CPROVER_ensures(vf_exc == 0 ==> self->_checksum == 0x50);
+
+void h_Parameters_read(void)
+{
+  struct Parameters *self = (struct Parameters *)vf_alloc(sizeof(*self));
+  struct c3d *file = vf_mk_c3d_reader();
+  file->_header = (struct Header *)vf_alloc(sizeof(struct Header));
+  Parameters__ctor__c3d(self, file);
+  VF_CANARY();
+}
